@@ -27,6 +27,9 @@ pub enum Layer {
     CramSealed,
     /// CRAM: the file with every block re-written as a raw (method 0) block, then like CramSealed
     CramRawSealed,
+    /// CRAM: one integer parameter of a compression header (encoding maps), slice header or block header set to a
+    /// hostile value on the parsed model (raw-block form where available), everything enclosing re-serialised
+    CramStruct,
 }
 
 impl Layer {
@@ -36,11 +39,12 @@ impl Layer {
             Layer::Inflated => "inflated",
             Layer::CramSealed => "cram-crc-resealed",
             Layer::CramRawSealed => "cram-rawblocks-crc-resealed",
+            Layer::CramStruct => "cram-structured-parameter-resealed",
         }
     }
 
     pub fn from_name(s: &str) -> Option<Layer> {
-        [Layer::Outer, Layer::Inflated, Layer::CramSealed, Layer::CramRawSealed].into_iter().find(|l| l.name() == s)
+        [Layer::Outer, Layer::Inflated, Layer::CramSealed, Layer::CramRawSealed, Layer::CramStruct].into_iter().find(|l| l.name() == s)
     }
 }
 
